@@ -320,7 +320,16 @@ def directed_specs():
     n = base[0]["name"]
     mk = lambda instrs, cash, positions, ops: {"instrs": instrs, "now": 360, "token": "ETH", "wallet": "5", "cash": cash,  # noqa: E731
                                                "positions": positions, "ops": [(o, "directed") for o in ops]}
+    btc = [{"name": "BTC-22SEP23-30000-C", "state": "open", "kind": "CALL", "strike": 30000, "expiry": 30000, "mark": 0.0287,
+            "underlying": 29876.5, "delta": 0.5, "gamma": 0.0001,
+            "asks": [[0.029, 0.09999999999999999], [0.0295, 0.2]], "bids": [[0.028, 0.09999999999999999], [0.0275, 0.2]]}]
+    mkb = lambda ops: {"instrs": btc, "now": 360, "token": "BTC", "wallet": "5", "cash": "10", "positions": [],  # noqa: E731
+                       "ops": [(o, "directed-float-residue") for o in ops]}
     return [
+        # sizes that are float residues (0.3 - 0.2 style): the depth check and the fill loop must read them the same way
+        mkb([{"type": "buy", "name": btc[0]["name"], "amount": Decimal("0.3")}]),
+        mkb([{"type": "buy", "name": btc[0]["name"], "amount": Decimal("0.2")}, {"type": "buy", "name": btc[0]["name"], "amount": Decimal("0.1")},
+             {"type": "sell", "name": btc[0]["name"], "amount": Decimal("0.3")}]),
         mk(base, "0.1", [], [{"type": "buy", "name": n, "amount": 10}]),
         mk(base, "1", [], [{"type": "sell", "name": n, "amount": 3}]),
         mk(base, "1", pos, [{"type": "sell", "name": n, "amount": 60}]),
@@ -341,7 +350,47 @@ def flush(ctx, reqs):
             ctx.count("model_rejections:" + ans.get("cause", ""))
 
 
+def helper_diff(ctx: Ctx):
+    """helper.round_decimal and Decimal(str(float)) against the model's roundDec / shortestRepr (what every price and size goes through)"""
+    from demeter.deribit.helper import round_decimal
+    from common import driver_json
+    rng = ctx.rng
+    reqs, wants = [], []
+    for _ in range(ctx.scale(1500, 40000)):
+        r = rng.random()
+        if r < 0.5:
+            e = rng.choice((-8, -6, -6, -4, -1, 0, 0, 1, 3))
+            sign = rng.choice((1, 1, 1, -1))
+            if rng.random() < 0.3:      # exact ties
+                x = Decimal(sign * (2 * rng.randint(0, 10 ** 6) + 1)) * Decimal(5) * Decimal(10) ** (e - 1)
+            else:
+                x = Decimal(sign * rng.randint(0, 10 ** rng.randint(1, 18))) / Decimal(10 ** rng.randint(0, 14))
+            reqs.append({"fn": "roundDec", "exp": e, "x": Fraction(x)})
+            wants.append(("roundDec", (e, x), Fraction(round_decimal(x, e))))
+        else:
+            q = rng.random()
+            if q < 0.3:
+                f = round(rng.randint(1, 10 ** 6) * 0.0005, 4)
+            elif q < 0.6:
+                f = rng.randint(1, 10 ** 7) / 10 - rng.randint(0, 10 ** 6) / 10      # float arithmetic residue
+            elif q < 0.8:
+                f = rng.uniform(0, 1) * 10 ** rng.randint(-8, 12)
+            else:
+                f = float(rng.randint(0, 10 ** 15))
+            reqs.append({"fn": "repr", "x": Fraction(f)})
+            wants.append(("repr", f, Fraction(Decimal(repr(f)))))
+    if not ctx.driver_ok:
+        return
+    out = driver_json(reqs, exe=L.EXE)
+    for (kind, arg, want), o in zip(wants, out):
+        ctx.case(f"helper:{kind}")
+        got = Fraction(o) if isinstance(o, str) else None
+        if got != want:
+            ctx.disagree(f"{kind}({arg}): impl {L.fmt(want)} model {o}", {"helper": kind, "arg": str(arg)})
+
+
 def run(ctx: Ctx):
+    helper_diff(ctx)
     reqs = []
     for spec in directed_specs():
         run_sequence(ctx, spec, reqs)
